@@ -31,19 +31,64 @@ INF == 1000000
 VARIABLES hdr,      \* "start" record of the run: template, parameters, n, size bounds, ctor outcome
           prev,     \* previous record (= projected state after the previous step)
           frames,   \* stack of [role, h] of the blocks being executed
-          done      \* run finished
+          done,     \* run finished
+          minr      \* PSO: per particle, the best rank it has ever been evaluated at (history)
 
-rvars == <<hdr, prev, frames, done>>
+rvars == <<hdr, prev, frames, done, minr>>
 
 Last(s) == s[Len(s)]
 Zero == [ev |-> "zero", h |-> 0, sizes |-> <<>>, top |-> <<>>, topr |-> <<>>, uneval |-> 0, topmin |-> NoObj,
-         stale |-> 0, evals |-> 0, iters |-> 0, calls |-> 0, best |-> NoObj, minseen |-> NoObj, sd |-> 1]
+         stale |-> 0, evals |-> 0, iters |-> 0, calls |-> 0, best |-> NoObj, minseen |-> NoObj, sd |-> 1, xk |-> "-"]
 
 NoHdr == [template |-> "-"]
-RInit == hdr = NoHdr /\ prev = Zero /\ frames = <<>> /\ done = TRUE
+RInit == hdr = NoHdr /\ prev = Zero /\ frames = <<>> /\ done = TRUE /\ minr = <<>>
 
 Start(r) == /\ done
-            /\ hdr' = r /\ prev' = Zero /\ frames' = <<>> /\ done' = FALSE
+            /\ hdr' = r /\ prev' = Zero /\ frames' = <<>> /\ done' = FALSE /\ minr' = <<>>
+
+MinOf(q) == CHOOSE m \in {q[j] : j \in 1..Len(q)} : \A j \in 1..Len(q) : m <= q[j]
+InLoop(fs) == \E i \in 1..Len(fs) : fs[i].role = "loop_body"
+Name(r) == IF r.ev = "step" THEN r.name ELSE "-"
+
+\* ---- C18: particle swarm (fields of r.x are harness-evaluated float predicates and rank projections)
+Pso(r) ==
+    /\ r.x.vmax_ok = 1                               \* every velocity component within [-v_max, v_max]
+    /\ InLoop(frames) => r.x.nv = r.x.np /\ r.x.npb = r.x.np     \* one entry per particle, always
+    /\ Name(r) = "ParticleVelocitiesUpdate" =>
+          /\ r.x.moved = 1                           \* each particle moved by exactly its new velocity
+          /\ r.x.vexact # 0                          \* (c1 = c2 = 0) the stored weight scaled the old velocity
+    /\ Name(r) = "Linear" => r.x.wexact = 1          \* weight = linear interpolation at the loop's progress
+    /\ Name(r) = "PersonalBestParticlesUpdate" =>
+          /\ Len(r.x.pbr) = Len(r.topr) /\ Len(prev.x.pbr) = Len(r.topr)
+          /\ \A i \in 1..Len(r.topr) :
+                 r.x.pbr[i] = (IF r.topr[i] < prev.x.pbr[i] THEN r.topr[i] ELSE prev.x.pbr[i])   \* strictly better
+          /\ r.x.pbr = minr                          \* = best position that particle was ever evaluated at
+    /\ (Name(r) = "GlobalBestParticleUpdate" /\ Len(r.x.pbr) > 0 /\ r.x.npb = r.x.np) =>
+          r.x.gbr = MinOf(r.x.pbr)                   \* global best = best personal best
+    /\ (prev.xk = "pso" /\ Name(r) \notin {"PersonalBestParticlesInit", "PersonalBestParticlesUpdate"}) =>
+          r.x.pbr = prev.x.pbr                       \* memories change only in their update components
+    /\ (prev.xk = "pso" /\ Name(r) # "GlobalBestParticleUpdate") => r.x.gbr = prev.x.gbr
+
+\* ---- C19: ant colony
+Aco(r) ==
+    /\ r.x.finite # 0 /\ r.x.sym # 0                 \* trails finite, non-negative, symmetric
+    /\ r.x.bounds # 0                                \* max-min variant: every trail within [min, max]
+    /\ Name(r) = "AcoGeneration" =>
+          /\ r.x.perm_ok = 1                         \* every tour a permutation of all cities starting at 0
+          /\ r.x.greedy_ok = 1                       \* the first tour is greedy w.r.t. the current trails
+          /\ Len(r.sizes) >= 1
+    /\ Name(r) \in {"AsPheromoneUpdate", "MinMaxPheromoneUpdate"} => r.x.cell_ok # 0   \* evaporate, then deposit
+
+\* ---- C20: chemical reaction optimisation
+CroUpdates == {"OnWallIneffectiveCollisionUpdate", "DecompositionUpdate", "SynthesisUpdate",
+               "IntermolecularIneffectiveCollisionUpdate"}
+Cro(r) ==
+    r.x.on = 1 =>
+      /\ r.x.cons = 1                                \* energy conserved up to rounding, at every step
+      /\ r.x.ke_ok = 1 /\ r.x.buf_ok = 1             \* no negative kinetic energy / buffer
+      /\ r.x.nm = r.x.nb                             \* one molecule record per individual
+      /\ r.x.best_le = 1                             \* ... in the same order (each molecule's best belongs to its individual)
+      /\ Name(r) \in CroUpdates => r.h = prev.h - 2  \* consumes exactly reactant and product populations
 
 \* ---- what every record must satisfy, relative to the previous one
 Common(r) ==
@@ -56,14 +101,16 @@ Common(r) ==
          \* C07: the recorded best only improves, and only the update component changes it
          /\ prev.best # NoObj => r.best # NoObj /\ r.best <= prev.best
          /\ (r.ev # "step" \/ r.name # "BestIndividualUpdate") => r.best = prev.best
+    /\ (On("C18") /\ r.xk = "pso") => Pso(r)
+    /\ (On("C19") /\ r.xk = "aco") => Aco(r)
+    /\ (On("C20") /\ r.xk = "cro") => Cro(r)
 
 Enter(r) == /\ r.ev = "enter"
             /\ Common(r)
             /\ r.sizes = prev.sizes /\ r.calls = prev.calls
             /\ frames' = Append(frames, [role |-> r.role, h |-> r.h])
-            /\ UNCHANGED <<hdr, done>> /\ prev' = r
+            /\ UNCHANGED <<hdr, done, minr>> /\ prev' = r
 
-InLoop(fs) == \E i \in 1..Len(fs) : fs[i].role = "loop_body"
 IsIls == hdr.template \in {"real_ils", "permutation_ils"}
 
 Exit(r) == /\ r.ev = "exit"
@@ -83,7 +130,7 @@ Exit(r) == /\ r.ev = "exit"
                     /\ r.h >= 1
                     /\ Last(r.sizes) >= hdr.size_lo /\ Last(r.sizes) <= hdr.size_hi
               /\ frames' = rest
-           /\ UNCHANGED <<hdr, done>> /\ prev' = r
+           /\ UNCHANGED <<hdr, done, minr>> /\ prev' = r
 
 StepLeaf(r) ==
     /\ r.ev = "step" /\ r.name \notin Composite
@@ -102,13 +149,18 @@ StepLeaf(r) ==
          /\ Last(r.sizes) > 0 /\ r.sd = prev.sd =>
               /\ r.best = (IF prev.best = NoObj \/ r.topmin < prev.best THEN r.topmin ELSE prev.best)
               /\ r.best <= r.topmin                  \* at least as good as everyone it was updated from
+    /\ minr' = IF r.name = "PopulationEvaluator" /\ r.xk = "pso"
+               THEN IF Len(minr) = Len(r.topr)
+                    THEN [i \in 1..Len(r.topr) |-> IF r.topr[i] < minr[i] THEN r.topr[i] ELSE minr[i]]
+                    ELSE r.topr
+               ELSE minr
     /\ UNCHANGED <<hdr, frames, done>> /\ prev' = r
 
 StepComposite(r) ==
     /\ r.ev = "step" /\ r.name \in Composite
     /\ Common(r)
     /\ r.sizes = prev.sizes /\ r.calls = prev.calls
-    /\ UNCHANGED <<hdr, frames, done>> /\ prev' = r
+    /\ UNCHANGED <<hdr, frames, done, minr>> /\ prev' = r
 
 End(r) == /\ r.ev = "end"
           /\ ~done
@@ -124,7 +176,7 @@ End(r) == /\ r.ev = "end"
           /\ (On("C07") /\ r.result = "ok" /\ r.calls > 0) =>
                 Dev(prev.best = r.minseen, "KF_IlsScopeWiring_Best", IsIls /\ prev.best > r.minseen)
           /\ done' = TRUE /\ frames' = <<>>
-          /\ UNCHANGED hdr /\ prev' = prev
+          /\ UNCHANGED <<hdr, minr>> /\ prev' = prev
 
 Do(r) == CASE r.ev = "start" -> Start(r)
            [] r.ev = "enter" -> Enter(r)
